@@ -355,8 +355,8 @@ def model_outcome(ctx, name, L, data):
 
 
 def corr_case(ctx, name, L, data, origin, state):
-    if len(data) > MODEL_MAX:
-        data = data[:MODEL_MAX]
+    if len(data) > L.get("max_len", MODEL_MAX):
+        data = data[-L.get("max_len", MODEL_MAX):] if L.get("cut") == "tail" else data[:L.get("max_len", MODEL_MAX)]
     key = (name, data)
     if key in state["seen"]:
         return
@@ -368,7 +368,7 @@ def corr_case(ctx, name, L, data, origin, state):
     ctx.count("corr-origin:" + origin)
     ctx.case((name, hashlib.blake2b(data, digest_size=8).hexdigest()),
              {"loader": name, "origin": origin, "input": data[:64].hex(), "impl": io_, "model": mo} if ctx.corr_cases % 5003 == 0 else None)
-    if io_ not in ("ok", "MutagenError"):
+    if io_ not in ("ok", "MutagenError") + tuple(L.get("allowed", ())):
         # the implementation itself breaks the property on this input: a concrete violation, whatever the model says
         what = "C04 %s escaped at %s" % (io_, site) if io_ != "timeout" else "C04 TIMEOUT: %s (%s)" % (site, name)
         if what not in state["viol"]:
@@ -391,7 +391,7 @@ def correspondence(ctx, n):
     state = {"seen": set(), "viol": set(), "dis": {}}
     for name, L in c04_loaders.LOADERS.items():
         t0 = time.time()
-        own = [(k, d) for k, d in sd if L["own"](k)]
+        own = [(k, d) for k, d in sd if L["own"](k)] + [("extra%d" % i, d) for i, d in enumerate(L.get("seeds", []))]
         for d in L["sweep"](samples):
             corr_case(ctx, name, L, d, "sweep", state)
         for i in range(n):
@@ -414,7 +414,7 @@ def vm_crosscheck(ctx, sd, R):
     for name, L in c04_loaders.LOADERS.items():
         mod, load, lst = L["coq"]
         mods.add(mod)
-        own = [d for k, d in sd if L["own"](k)] or [b""]
+        own = [d for k, d in sd if L["own"](k)] + list(L.get("seeds", [])) or [b""]
         for i in range(6):
             d = R.choice(own)[:R.choice([0, 7, 33, 64, 120, 200])]
             if i % 2:
